@@ -36,6 +36,30 @@ def product(run):
     return scenarios, meta
 
 
+def several_matching(run):
+    """beyond the product of the quantifier: several credentials match the lookup (2-3 for the RP, allow list naming them
+    in either order, or no allow list on the store that supports it), distinct keys - "the credential shown to the user
+    for consent is the one that signs" is only observable then"""
+    rng = run.rng
+    scenarios, meta = [], []
+    answers = [{"presence": True, "verification": True}, {"presence": True, "verification": False}, {"presence": False, "verification": False}]
+    for store in ("ref", "memory", "arc_mutex_memory"):
+        for n in (2, 3):
+            ids = [bytes([0x30 + j]) * 16 for j in range(n)]
+            content = [mk_passkey(rng, "example.com", cred_id=ids[j], counter=rng.choice([None, 3, 9]), keyidx=j, user_handle=bytes([j + 1]) * 4)
+                       for j in range(n)]
+            content.append(mk_passkey(rng, "other.org", cred_id=b"\x55" * 16, counter=1, keyidx=4))
+            allows = [ids, list(reversed(ids)), ids[1:] + ids[:1]] + ([None, []] if store == "ref" else [])
+            for allow in allows:
+                for uv in (False, True):
+                    for ans in answers:
+                        op = {"op": "get_assertion", "req": ga_req(rng, up=True, uv=uv, allow=allow, cdh=b"\x22" * 32)}
+                        scenarios.append(scenario(store_kind=store, content=content, config={"counter": True},
+                                                  user={"verif_enabled": True, "presence_enabled": True, "script": [ans]}, ops=[op]))
+                        meta.append(("several", store, n, None if allow is None else tuple(a.hex() for a in allow), uv, json.dumps(ans)))
+    return scenarios, meta
+
+
 def consent_missing(sc, obs):
     o = sc["ops"][0]["req"]["opts"]
     for e in obs["log"]:
@@ -73,10 +97,13 @@ def non_disclosure(scenarios, outs):
 
 def check(run):
     scenarios, meta = product(run)
+    s2, m2 = several_matching(run)
+    scenarios, meta = scenarios + s2, meta + m2
     ceremony.standard_check(
-        run, PROP, scenarios, meta, ["c04_ok"], pair_oracle=non_disclosure,
+        run, PROP, scenarios, meta, ["c04_ok"], pair_oracle=non_disclosure, py_oracle=ceremony.signature_oracle,
         coq_files=["theories/Auth/Authenticator.v", "theories/Auth/C04Facts.v"],
         rule="complete enumeration of operation x (rk,up,uv) x verification capability (None/Some false/Some true) x presence capability "
-             "x user answer (4 presence/verification results, 2 errors) x pin-auth x matching credential present/absent x store kind",
+             "x user answer (4 presence/verification results, 2 errors) x pin-auth x matching credential present/absent x store kind; plus assertions with 2-3 matching credentials (allow list in "
+             "every rotation / absent / empty) where the credential shown for consent and the signing key (independent ECDSA check) are compared",
         assumptions=["U2F operations have no consent step by design (presence is a caller-supplied argument): not quantified over here"])
     run.cov["exhaustive"] = True
